@@ -366,6 +366,7 @@ PROPS = {
         "assumptions": [],
         "units": [
             rap("rewind", "^TestC20Rewind$", 150, 1500, 6, 16),
+            rap("rewind_hostile", "^TestC20Hostile$", 100, 1000, 4, 16),
         ],
     },
     "C16": {
